@@ -24,6 +24,7 @@ def cfg_for(rng, k):
     c.basename_differs = 0.5
     c.name_prefix = 0.3
     c.packing = 0.3
+    c.bad_packing = 0.15
     c.digit_names = 0.3
     c.digit_fields = 0.3
     c.keyword_field = 0.15
@@ -239,6 +240,10 @@ def worker(ctx):
                             for lang in (("c", "py", "go") if mode == "std" else ("c", "go")):
                                 render(proto, lang, outdir=od, optimization_mode=(mode != "std"), optimization_mode_filter_messages=filt)
                     except errors.ParserError as e:
+                        if type(e).__name__ == "InvalidOptionValue" and any(g2.option("c.struct_packing_alignment") in (3, 5, 6, 7) for g2 in files):
+                            res.count("rejected:packing_alignment_not_a_power_of_two")  # accepted, it would have to compile as C
+                            ok = False
+                            break
                         res.violation("generator-schema-rejected", f"schema rejected: {type(e).__name__}: {str(e)[:200]}", wit)
                         ok = False
                         break
